@@ -191,6 +191,23 @@ Theorem C02_walked_index_is_the_registered_set f dev under es0 :
   ix_of_fs f dev under es0 (build_index (scan_regs f dev under es0 (walk_listing f under) ++ export_regs f dev es0)).
 Proof. exact (walked_index_is_ix_of_fs f dev under es0). Qed.
 
+(** The whole run with the index BUILT (insertion procedure over the walk's listing and the export
+    probes of the start state) instead of assumed. *)
+Theorem C02_whole_run_built_index_present_piece_recovered H content export ts es ws f0 dev under i pc :
+  let es0 := metadata_table export ts 0 in
+  let ix := build_index (scan_regs f0 dev under es0 (walk_listing f0 under) ++ export_regs f0 dev es0) in
+  run_setup H content export ts ix es ws f0 (map (solve_prog H) ws) ->
+  nth_error ws i = Some pc ->
+  H (piece_bytes content pc) = w_hash pc ->
+  Forall (pad_zero content) (w_segs pc) ->
+  Forall (seg_present_stable content f0 under es0 es) (w_segs pc) ->
+  let s0 := {| s_fs := f0; s_pool := map (solve_prog H) ws |} in
+  (exists s', freach s0 s' /\ finished s') /\
+  (forall s', freach s0 s' -> finished s' ->
+     nth_error (s_pool s') i = Some (Ret Success) /\
+     forall sg, In sg (w_segs pc) -> e_pad (ps_entry sg) = false -> holds_seg content (s_fs s') sg).
+Proof. exact (whole_run_built_index_present_piece_recovered H content export ts es ws f0 dev under i pc). Qed.
+
 Print Assumptions C02_candidates_complete.
 Print Assumptions C02_candidates_sound.
 Print Assumptions C02_witnesses_give_combination.
@@ -207,3 +224,4 @@ Print Assumptions C02_export_probes_register_the_index_set.
 Print Assumptions C02_built_index_is_the_registered_set.
 Print Assumptions C02_built_index_holds_exactly_the_registrations.
 Print Assumptions C02_walked_index_is_the_registered_set.
+Print Assumptions C02_whole_run_built_index_present_piece_recovered.
